@@ -163,6 +163,8 @@ template <class S> static std::string string_from(const std::string &srcname, co
 }
 
 // ------------------------------------------------------------------ ST::string -> encoding routes
+// (every route that writes into a caller-supplied object is given one that already holds text: seeded C01-H left the
+//  old text in place for an empty source)
 static std::string string_to(const std::string &dst, const std::string &route, bool sub, const std::vector<uint64_t> &in) {
     std::string bytes; for (auto x : in) bytes.push_back((char)x);
     ST::string s = raw_string(bytes);
@@ -170,27 +172,30 @@ static std::string string_to(const std::string &dst, const std::string &route, b
         if (route == "member") return show(s.to_utf8());
         if (route == "buffer") { ST::char_buffer b("seed", 4); s.to_buffer(b); return show(b); }
         if (route == "std") return show_std(s.to_std_string());
+        if (route == "std_ref") { std::string r("stale text of an earlier call"); s.to_std_string(r); return show_std(r); }
+        if (route == "u8std_ref") { std::u8string r(u8"stale text of an earlier call"); s.to_std_string(r); return show_std(r); }
         if (route == "view") { auto v = s.view(); return "ok " + hex_units(v.data(), v.size()); }
         if (route == "u8std") return show_std(s.to_std_u8string());
     } else if (dst == "u16") {
         if (route == "member") return show(s.to_utf16());
-        if (route == "buffer") { ST::utf16_buffer b; s.to_buffer(b); return show(b); }
+        if (route == "buffer") { ST::utf16_buffer b(u"stale text of an earlier call", 29); s.to_buffer(b); return show(b); }
         if (route == "std") return show_std(s.to_std_u16string());
-        if (route == "std_ref") { std::u16string r; s.to_std_string(r); return show_std(r); }
+        if (route == "std_ref") { std::u16string r(u"stale text of an earlier call"); s.to_std_string(r); return show_std(r); }
     } else if (dst == "u32") {
         if (route == "member") return show(s.to_utf32());
-        if (route == "buffer") { ST::utf32_buffer b; s.to_buffer(b); return show(b); }
+        if (route == "buffer") { ST::utf32_buffer b(U"stale text of an earlier call", 29); s.to_buffer(b); return show(b); }
         if (route == "std") return show_std(s.to_std_u32string());
-        if (route == "std_ref") { std::u32string r; s.to_std_string(r); return show_std(r); }
+        if (route == "std_ref") { std::u32string r(U"stale text of an earlier call"); s.to_std_string(r); return show_std(r); }
     } else if (dst == "w") {
         if (route == "member") return show(s.to_wchar());
-        if (route == "buffer") { ST::wchar_buffer b; s.to_buffer(b); return show(b); }
+        if (route == "buffer") { ST::wchar_buffer b(L"stale text of an earlier call", 29); s.to_buffer(b); return show(b); }
         if (route == "std") return show_std(s.to_std_wstring());
-        if (route == "std_ref") { std::wstring r; s.to_std_string(r); return show_std(r); }
+        if (route == "std_ref") { std::wstring r(L"stale text of an earlier call"); s.to_std_string(r); return show_std(r); }
     } else if (dst == "l1") {
         if (route == "member") return show(sub ? same_as_default(s.to_latin_1(sub), s.to_latin_1()) : s.to_latin_1(sub));      // substitute_out_of_range defaults to true
-        if (route == "buffer") { ST::char_buffer b; s.to_buffer(b, false, sub); return show(b); }
+        if (route == "buffer") { ST::char_buffer b("stale text of an earlier call", 29); s.to_buffer(b, false, sub); return show(b); }
         if (route == "std") return show_std(sub ? same_as_default(s.to_std_string(false, sub), s.to_std_string(false)) : s.to_std_string(false, sub));
+        if (route == "std_ref") { std::string r("stale text of an earlier call"); s.to_std_string(r, false, sub); return show_std(r); }
     }
     return "bad-route";
 }
@@ -281,8 +286,8 @@ struct RouteSet {
         return r;
     }
     std::vector<std::string> to_routes(const std::string &dst) const {
-        if (dst == "u8") return {"member", "buffer", "std", "view", "u8std"};
-        if (dst == "l1") return {"member", "buffer", "std"};
+        if (dst == "u8") return {"member", "buffer", "std", "std_ref", "view", "u8std", "u8std_ref"};
+        if (dst == "l1") return {"member", "buffer", "std", "std_ref"};
         return {"member", "buffer", "std", "std_ref"};
     }
 };
@@ -387,6 +392,8 @@ static void gen(Emitter &em, const Options &opt) {
             std::vector<uint64_t> b; for (auto x : s) enc("u8", x, b);
             emit_to_routes(em, b);
         }
+        // the empty string through every outward route (a destination that already holds text must end up empty)
+        if (in_slice()) emit_to_routes(em, {});
         // (3) all 256 Latin-1 bytes in first / interior / last position
         for (int b = 0; b < 256; ++b) for (int pos = 0; pos < 3; ++pos) {
             std::vector<uint64_t> u = {0x41, 0xE9}; u.insert(u.begin() + pos, (uint64_t)b);
